@@ -215,8 +215,8 @@ fn on_demand(shared: &SharedReport, th: bool, a: &Args) {
                     }
                 }
                 acks += 1;
-                if !wait_acks(acks, 5000) {
-                    problems.push(("c19:on-demand-request-not-handled".into(), format!("request {k} ({:?}) was not handled within 5 s", rq)));
+                if !wait_acks(acks, 20_000) {
+                    problems.push(("c19:on-demand-request-not-handled".into(), format!("request {k} ({:?}) was not handled within 20 s", rq)));
                     break;
                 }
                 if let Req::Check(s) = rq {
@@ -323,7 +323,7 @@ fn start_server(m: &GraphModel, base: u16) -> Option<u16> {
             let _ = mm.checker().serve(("127.0.0.1", port));
         });
         let t0 = Instant::now();
-        while t0.elapsed() < Duration::from_secs(3) {
+        while t0.elapsed() < Duration::from_secs(15) {
             if let Some((200, _)) = http(port, "GET", "/.status") {
                 return Some(port);
             }
@@ -469,7 +469,7 @@ fn http_part(shared: &SharedReport, th: bool, a: &Args) {
         let _ = http(port, "POST", "/.runtocompletion");
         let t0 = Instant::now();
         let mut status = Value::Null;
-        while t0.elapsed() < Duration::from_secs(20) {
+        while t0.elapsed() < Duration::from_secs(60) {
             if let Some((200, body)) = http(port, "GET", "/.status") {
                 status = serde_json::from_str(&body).unwrap_or(Value::Null);
                 if status["done"] == json!(true) {
